@@ -1839,8 +1839,9 @@ func (p *parser) parseOperand(lhs, allowTuple, allowCmd bool) (x ast.Expr, isTup
 		lparen := p.pos
 		p.next()
 		if allowTuple && p.tok == token.RPAREN { // () => expr
+			rparen := p.pos
 			p.next()
-			return &tupleExpr{opening: lparen, closing: p.pos}, true
+			return &tupleExpr{opening: lparen, closing: rparen}, true
 		}
 		p.exprLev++
 		x = p.parseRHSOrType() // types may be parenthesized: (some type)
@@ -1852,13 +1853,13 @@ func (p *parser) parseOperand(lhs, allowTuple, allowCmd bool) (x ast.Expr, isTup
 				p.next()
 				items = append(items, p.parseRHSOrType())
 			}
-			t := &tupleExpr{opening: lparen, items: items, closing: p.pos}
+			t := &tupleExpr{opening: lparen, items: items}
 			if p.tok == token.ELLIPSIS {
 				t.ellipsis = p.pos
 				p.next()
 			}
 			p.exprLev--
-			p.expect(token.RPAREN)
+			t.closing = p.expect(token.RPAREN)
 			return t, true
 		}
 		p.exprLev--
@@ -2109,8 +2110,17 @@ func (p *parser) parseCallOrConversion(fun ast.Expr, isCmd bool) *ast.CallExpr {
 	}
 	p.exprLev--
 	var noParenEnd token.Pos
-	if isCmd {
-		noParenEnd = p.pos
+	if isCmd { // the call ends with its last token, not where the next one starts
+		switch {
+		case rparen != token.NoPos:
+			noParenEnd = rparen + 1
+		case ellipsis != token.NoPos:
+			noParenEnd = ellipsis + 3
+		case len(list) > 0:
+			noParenEnd = list[len(list)-1].End()
+		default:
+			noParenEnd = p.pos
+		}
 	} else if rparen == token.NoPos {
 		rparen = p.expectClosing(token.RPAREN, "argument list")
 	}
@@ -2626,7 +2636,7 @@ type tupleExpr struct {
 // Pos and End make a tuple that ends up where an expression is expected (a
 // syntax error) usable in error recovery; the embedded ast.Expr is nil.
 func (p *tupleExpr) Pos() token.Pos { return p.opening }
-func (p *tupleExpr) End() token.Pos { return p.closing }
+func (p *tupleExpr) End() token.Pos { return p.closing + 1 }
 
 func (p *parser) parseLambdaExpr(allowTuple, allowCmd, allowRangeExpr bool) (x ast.Expr, isTuple bool) {
 	var first = p.pos
